@@ -243,8 +243,12 @@ def run(ctx):
         "the driver executes the PARTIAL operations Tree.insertC / Tree.removeC (Model/RBTreeChecked.lean: every pointer "
         "access of the Go fix-up loops is an Option; token `nil-deref` on none); C06.fixups_never_dereference_nil proves "
         "they never yield none on a reachable tree and equal Tree.insert / Tree.remove",
-        "parent pointers are not part of the Lean model; their consistency is checked at run time on the real tree "
-        "(overlay dump bit `parents=ok` and op `inv`)",
+        "pointer-level model RB.PTree (Model/RBHeap.lean): node store with parent/left/right links, colour bit, t.root, "
+        "t.count; Insert, rotateLeft/Right, Remove, recolor, node.find transcribed statement for statement; run by the driver "
+        "in lock-step on every ins/rem line (verdict HEAP-MODEL-SPLIT / HEAP-MODEL-NIL-DEREF) and source of every node dump; "
+        "C06.heap_run_refines proves that for every history and compare function it is defined and that the tree its links "
+        "describe (every parent link checked) and its count are those of the functional model; parent links of the REAL "
+        "nodes are compared through the overlay dump bit `parents=ok` and the op `inv`",
         "Go `compare` returns int; the model takes an Ordering-valued compare (the code only inspects the sign; the "
         "harness returns arbitrary magnitudes in div10 mode)",
         "Tree.Dump (prints to stdout for debugging) is modelled only as: one line per entry, the stored key multiset, "
